@@ -8,12 +8,19 @@ TB_COMMON = [
 
 PROPS = {
     "C17": {
-        "thm": ["Umya.Thm.C17", "Umya.Thm.C17Gen", "Umya.Thm.C17Regex", "Umya.Thm.C17Parse"],
+        "thm": ["Umya.Thm.C17", "Umya.Thm.C17Gen", "Umya.Thm.C17Regex", "Umya.Thm.C17Parse", "Umya.Thm.C17Obj"],
         "harness": "c17",
         "level": "proof",
         "level_text": "Proof: the codecs of helper/coordinate.rs, helper/range.rs, helper/address.rs and structs/{range,address} are modelled as "
                       "total Lean functions; inverse laws are theorems for all columns/rows/locks/shapes/names (unbounded where the Rust is), "
-                      "and the model is tied to the code by an exhaustive + random differential check on every run.",
+                      "and the model is tied to the code by an exhaustive + random differential check on every run. "
+                      "Object-level glue (Thm/C17Obj.lean): Coordinate::set_coordinate / get_coordinate of structs/coordinate.rs are compiled from the "
+                      "current source on every run (&mut self as state passing over the two component records ColumnReference_rec / RowReference_rec, "
+                      "themselves generated from the struct declarations; component setters / getters resolved by reading their bodies) and proved equal "
+                      "to the hand model CoordObj for every prior state and text (C17_set_coordinate_matches_source, C17_get_coordinate_matches_source: "
+                      "panic exactly when one of the four results of index_from_coordinate is None resp. when col = 0); C17_set_coordinate_overwrites: "
+                      "the outcome does not depend on what the object held, all four fields are those parsed from the text and get_coordinate prints "
+                      "them; C17_set_get_coordinate: on the grammar canonCellB, get_coordinate after set_coordinate(t) = t.",
         "level_note": "Trusted: Lean kernel + 3 standard axioms; the hand model's faithfulness as exercised by the correspondence stream; "
                       "fancy_regex behaviour on one regex (modelled); ASCII-only upper-casing.",
         "expect_theorems": ["C17_codec_matches_source", "C17_regex_matches_source", "C17_alpha_index", "C17_alpha_index3", "C17_index_alpha", "C17_bijective_numeral",
@@ -21,7 +28,8 @@ PROPS = {
                             "C17_column_parse_print", "C17_coord_parse_print", "C17_coord_reprint", "C17_coord_trailing_ignored",
                             "C17_range_parse_print", "C17_range_reprint", "C17_range_bijection",
                             "C17_address_parse_print", "C17_address_rejoin", "C17_quote_rule", "C17_address_text", "C17_address_canon",
-                            "C17_address_apostrophes"],
+                            "C17_address_apostrophes",
+                            "C17_set_coordinate_matches_source", "C17_get_coordinate_matches_source", "C17_set_coordinate_overwrites", "C17_set_get_coordinate"],
         "rule": "exhaustive: every column 0..18279 and every 1-3 letter name; rows 1..1048576 (stride 257 quick / 1 thorough) x "
                 "{A,Z,AA,ZZ,AAA,XFD} x 4 lock combinations; random strings over $A-Za-z0-9:!'\" against the regex model; "
                 "range shapes over boundary corners; sheet names from a special-character alphabet up to 31 chars; "
@@ -33,6 +41,10 @@ PROPS = {
         "trusted_base": TB_COMMON + [
             "fancy_regex on the one coordinate regex: modelled by a hand-written matcher, tied behaviourally (random + boundary strings)",
             "ASCII to_uppercase only (non-ASCII case mapping outside the model)",
+            "translator tie of Coordinate::set_coordinate / get_coordinate: index_from_coordinate (regex-based) is an extern of the compiled set_coordinate, "
+            "instantiated by the model's indexFromCoordinate (tied by C17_regex_matches_source + behaviour); get_coordinate calls the compiled "
+            "coordinate_from_index_with_lock / string_from_column_index; ColumnReference / RowReference set_num, set_is_lock, get_num, get_is_lock are "
+            "read as plain field assignments / reads from their source files (anything else = fallback)",
         ],
         "assumptions": ["sheet names are legal (non-empty, not starting with an apostrophe); address text contains no '!'",
                         "columns up to ZZZ=18278 (the 3-letter parser's domain), rows < 2^32",
@@ -45,7 +57,11 @@ PROPS = {
                             "stated exactly in C17_address_parse_print); the quoting printer get_address_ptn2 returns canonArea t, not t: the qualifier is "
                             "re-quoted by the library's own rule (C17_quote_rule: bare only for [0-9a-zA-Z]+ starting with a lower-case letter or a digit run >= 2^32), "
                             "so Excel's Sheet1!$A$1 comes back as 'Sheet1'!$A$1 - same area (C17_address_canon), different text",
-                            "an unqualified area ($A$1 without sheet) and non-ASCII case mapping are outside the address-level grammar"],
+                            "an unqualified area ($A$1 without sheet) and non-ASCII case mapping are outside the address-level grammar",
+                            "Range::set_range / get_range (structs/range.rs) are NOT compiled from the source (probed: set_range stops at `.split(':')` on str - then a "
+                            "Vec<&str> that is indexed, ColumnReference::default() and `self.start_col = Some(..)`; get_range calls the sibling &self methods "
+                            "get_coordinate_start / _end, which call ColumnReference::get_coordinate - not a plain getter); "
+                            "they stay tied to the hand model Range.setRange / Range.print by behaviour only (the range lines of the correspondence stream)"],
     },
 }
 
